@@ -354,4 +354,48 @@ def Itv.sub (i j : Itv) : Bool := decide (j.1 ≤ i.1) && decide (i.2 ≤ j.2)
 def within (n : Nat) (A B : List Itv) : Bool :=
   (List.range n).all (fun i => Itv.sub (A.getD i (0, 0)) (B.getD i (0, 0)))
 
+/-! ### the analysis of one routine -/
+
+/-- intervals at four program points -/
+structure Report where
+  /-- load variables -/
+  L : List Itv
+  /-- limbs after the limb definitions -/
+  I : List Itv
+  /-- environment before the last two blocks (fold of the top limb, last carry pass) -/
+  M : List Itv
+  /-- final environment -/
+  F : List Itv
+  deriving Repr
+
+/-- loads, init, all blocks but the last two, the last two blocks; `none` if any interval leaves the int64 range -/
+def analyse (p : ScProg) (lens : List Nat) : Option Report :=
+  match absLoadsOf p lens with
+  | none => none
+  | some L =>
+    match absInit p L with
+    | none => none
+    | some I =>
+      match absBlocks p.nCarry (p.blocks.take (p.blocks.length - 2)) I with
+      | none => none
+      | some M =>
+        match absBlocks p.nCarry (p.blocks.drop (p.blocks.length - 2)) M with
+        | none => none
+        | some F => some ⟨L, I, M, F⟩
+
+/-- what the last two blocks need: s0 … s11 are 21-bit digits, s12 ∈ {-1, 0}, s13 … s23 are zero -/
+def tailPre : List Itv :=
+  List.replicate 12 (0, 2097151) ++ [(-1, 0)] ++ List.replicate 11 (0, 0)
+
+/-- the final intervals with the lower bound of s11 raised to 0 (that bound is proved from the VALUE of the
+result, Proofs/Ed25519Ranges.lean; the interval analysis alone gives s11 ≥ -1) -/
+def finalItv (F : List Itv) : List Itv := F.set 11 (0, (F.getD 11 (0, 0)).2)
+
+/-- the complete check of one routine: nothing overflows up to the last two blocks and in them, the state before
+them satisfies `tailPre`, and (given s11 ≥ 0) nothing overflows in the byte packing -/
+def rangeCheck (p : ScProg) (lens : List Nat) : Bool :=
+  match analyse p lens with
+  | none => false
+  | some r => within 24 r.M tailPre && absStore p (finalItv r.F)
+
 end Dos.IntervalProg
